@@ -387,7 +387,10 @@ impl<'l> CelCompiler<'l> {
                             range,
                         ),
                     ));
-                } else if self.bindings.get_type(&i).is_some() {
+                } else if self.bindings.get_type(&i).is_some()
+                    && MatchTypePattern::try_from_type_str(&i).is_some()
+                {
+                    // type names without a pattern (dyn, type, null_type) are ordinary values
                     self.tokenizer.next()?;
                     return Ok((
                         CompiledProg::with_bytecode(
